@@ -29,11 +29,20 @@ Fault(e) ==
     THEN "token:" \o (e.dialects[CHOOSE i \in 1 .. Len(e.dialects) : ~DialectOk(e.dialects[i], v)]).d
   ELSE "ok"
 
+\* the statement as the default options print it (format = true) consists of the same tokens - kinds, words, numbers and
+\* the code points of every string token - as the compact statement, under the tokenizer of its dialect
+FmtFault(e) ==
+  IF \E i \in 1 .. Len(e.dialects) : ~e.dialects[i].fmt_same
+    THEN "format:" \o (e.dialects[CHOOSE i \in 1 .. Len(e.dialects) : ~e.dialects[i].fmt_same]).d
+  ELSE "ok"
+
 Lit ==
   /\ Consume /\ Ev.event = "Lit" /\ n' = n + 1
-  /\ LET f == Fault(Ev) IN
-     IF f = "ok" THEN UNCHANGED nrej
-     ELSE nrej' = nrej + 1 /\ PrintT(<<"REJECT", Ev.id, f, ToJson(Ev.spelling), l>>)
+  /\ LET f == Fault(Ev)
+         g == FmtFault(Ev) IN
+     /\ nrej' = nrej + (IF f = "ok" THEN 0 ELSE 1) + (IF g = "ok" THEN 0 ELSE 1)
+     /\ (f = "ok" \/ PrintT(<<"REJECT", Ev.id, f, ToJson(Ev.spelling), l>>))
+     /\ (g = "ok" \/ PrintT(<<"REJECT", Ev.id, g, ToJson(Ev.spelling), l>>))
 End == Consume /\ Ev.event = "End" /\ PrintT(<<"COUNTS", n, nrej>>) /\ UNCHANGED <<n, nrej>>
 TNext == Refs \/ Lit \/ End
 TraceSpec == TInit /\ [][TNext]_vars
